@@ -1,5 +1,6 @@
 """C16 - the fault-injection callback sees and controls every evaluated signal."""
 import copy
+import functools
 import operator
 import pickle
 
@@ -34,7 +35,7 @@ def cases(draw, tier):
     repl = draw(st.lists(st.sampled_from(alpha), min_size=sims, max_size=sims))
     return dict(nl=nl, m=m, sims=sims, stim=stim, repl=repl, target=draw(st.integers(0, 10000)),
                 c_reuse=draw(st.booleans()), strip_forks=draw(st.booleans()), cycles=draw(st.sampled_from([0, 0, 1, 2])),
-                copied=draw(st.sampled_from([0, 0, 0, 1, 2])))
+                copied=draw(st.sampled_from([0, 0, 0, 1, 2])), cbform=draw(st.sampled_from([0, 0, 1, 2, 3])))
 
 
 class LineEval:
@@ -146,7 +147,24 @@ def prop(case):
                                 f'freshly computed value is {e}')
         calls.append(idx)
 
-    s1 = fresh(); s1.s_to_c(); s1.c_prop(inject_cb=rec); s1.c_to_s()
+    def as_callback(f):
+        """the callback in another shape a caller may well use: a bound method, a functools.partial, or a callable container object that
+        collects what it sees (a list subclass - empty, hence falsy, until the first call)"""
+        form = case.get('cbform', 0)
+        if form == 1:
+            class Holder:
+                def method(self, line, arr): return f(line, arr)
+            return Holder().method
+        if form == 2:
+            return functools.partial(lambda tag, line, arr: f(line, arr), 'tag')
+        if form == 3:
+            class Log(list):
+                def __call__(self, line, arr):
+                    self.append(operator.index(line)); return f(line, arr)
+            return Log()
+        return f
+
+    s1 = fresh(); s1.s_to_c(); s1.c_prop(inject_cb=as_callback(rec)); s1.c_to_s()
     expected_lines = set()
     for l in c.lines:
         if case['strip_forks'] and l.driver.kind == '__fork__' and id(l.driver) not in pi_forks:
@@ -189,7 +207,7 @@ def prop(case):
     cycles = case['cycles']
     s2 = fresh()
     if cycles == 0:
-        s2.s_to_c(); s2.c_prop(inject_cb=inj); s2.c_to_s()
+        s2.s_to_c(); s2.c_prop(inject_cb=as_callback(inj)); s2.c_to_s()
         evo = evaluators(target)
         exp = np.array([[cls(rm.enc(evo[lane].line(ln))) for lane in range(sims)] for _, ln in outs], dtype=np.uint8)
     else:
@@ -199,7 +217,7 @@ def prop(case):
             evo = evaluators(target)
             exp = np.array([[cls(rm.enc(evo[lane].line(ln))) for lane in range(sims)] for _, ln in outs], dtype=np.uint8)
         else:
-            s2.cycle(cycles, inject_cb=inj)
+            s2.cycle(cycles, inject_cb=as_callback(inj))
             stim = [list(r) for r in case['stim']]
             for _ in range(cycles):
                 evo = []
@@ -243,6 +261,7 @@ def prop(case):
     if case['c_reuse']: labels.append('c_reuse')
     if cycles: labels.append('through_cycle')
     if case.get('copied'): labels.append('simulator_pickled_or_copied')
+    if case.get('cbform'): labels.append(['', 'callback_bound_method', 'callback_partial', 'callback_callable_container'][case['cbform']])
     if differs: labels.append('replacement_differs')
     if any(in_fo) and not all(in_fo): labels.append('target_partially_observable')
     return Obs(differs and any(in_fo) and not all(in_fo), labels, checks=len(calls) + len(outs))
